@@ -1709,6 +1709,7 @@ pub fn explore(depth: usize, ladder: usize, deep: usize, threads: usize, skips: 
     let core: Vec<IOp> = vec![
         Insert(0, 0), Insert(1, 0), Insert(2, 0), Insert(1, 1), Remove(0), Remove(1), Remove(2), Get(0), Get(1), Get(2),
         Touch(2), Mutate(1, 1), Mutate(0, 0), TryInsert(2, 0), Peek(1), RemoveLru, GetLru, SetMax(2), SetMax(4), ShrinkToFit,
+        Drain(0), Clear,
     ];
     macro_rules! add_deep {
         ($t:ty) => {
@@ -1726,6 +1727,18 @@ pub fn explore(depth: usize, ladder: usize, deep: usize, threads: usize, skips: 
     if deep > 1 {
         add_deep!(PlainKeyTracked);
         add_deep!(U64View);
+        // the same core alphabet, 3 (thorough 4) operations deep, from larger fills
+        for hk in [HK::Const, HK::Spread] {
+            for n in [17usize, 33, 70] {
+                for (limit, cap) in [(usize::MAX, None), (0usize, Some(3usize))] {
+                    let prefix: Vec<IOp> = (0..n as u32).map(|k| Insert(k, (k % 2) as usize)).collect();
+                    let mut alpha = core.clone();
+                    alpha.extend([Insert(n as u32, 0), Remove(n as u32 - 1), Get(n as u32 / 2), Reserve, Retain(1)]);
+                    let job = Job { hk, limit, cap, depth: deep - 2, prefix, second_after: None, label: "filled", alpha: Some(alpha), id: jobs.len() as u32, mode: 0, skips: skips.clone() };
+                    jobs.push(Box::new(move || run_job::<U64View>(job)));
+                }
+            }
+        }
     }
     jobs.reverse();
     run_jobs(jobs, threads)
